@@ -200,7 +200,44 @@ func addIfExit(pk *packages.Package, ifs *ast.IfStmt, gs *[]Guard) {
 	}
 }
 
+// fallsInto returns the case lists of the clauses that reach cc through a chain of `fallthrough` statements.
+func fallsInto(sw *ast.SwitchStmt, cc *ast.CaseClause) (lists [][]ast.Expr, viaDefault bool) {
+	idx := -1
+	for i, s := range sw.Body.List {
+		if s == ast.Stmt(cc) {
+			idx = i
+		}
+	}
+	for i := idx - 1; i >= 0; i-- {
+		o := sw.Body.List[i].(*ast.CaseClause)
+		if len(o.Body) == 0 {
+			break
+		}
+		bs, ok := o.Body[len(o.Body)-1].(*ast.BranchStmt)
+		if !ok || bs.Tok != token.FALLTHROUGH {
+			break
+		}
+		if o.List == nil {
+			viaDefault = true
+		}
+		lists = append(lists, o.List)
+	}
+	return
+}
+
 func addSwitchGuard(sw *ast.SwitchStmt, cc *ast.CaseClause, gs *[]Guard) {
+	if lists, viaDefault := fallsInto(sw, cc); len(lists) > 0 {
+		// the clause is also entered from the clauses above it: its own case list is not a guard of its body
+		if sw.Tag == nil || viaDefault || cc.List == nil {
+			return
+		}
+		vals := append([]ast.Expr{}, cc.List...)
+		for _, l := range lists {
+			vals = append(vals, l...)
+		}
+		*gs = append(*gs, Guard{Tag: sw.Tag, Vals: vals, Pos: true, At: cc.Pos()})
+		return
+	}
 	if sw.Tag == nil {
 		if cc.List == nil { // default: all other cases false
 			for _, s := range sw.Body.List {
